@@ -6,7 +6,14 @@ LIST="$@"; [ -z "$LIST" ] && LIST=$(ls seeded | grep -v obsolete)
 SAVE=$(mktemp -d /tmp/evsave.XXXX); cp -a /verif/evidence/. $SAVE/
 for m in $LIST; do
   P=/verif/seeded/$m/patch.diff
-  CHECKS=$(python3 -c "import json;print(' '.join(json.load(open('seeded/$m/meta.json'))['detection'].keys()))")
+  CHECKS=$(python3 -c "
+import json,re
+ks=json.load(open('seeded/$m/meta.json'))['detection'].keys()
+ids=[]
+for k in ks:
+    for t in k.split():
+        if re.fullmatch(r'C[0-9][0-9]', t) and t not in ids: ids.append(t)
+print(' '.join(ids))")
   if ! git -C /repo apply --check $P 2>/dev/null; then echo "$m PATCH-DOES-NOT-APPLY"; continue; fi
   git -C /repo apply $P
   RES=""
